@@ -206,8 +206,28 @@ def run(tier):
     if bad:
         raise Inconclusive('export encoding disagrees with the native function: %r' % bad[:3])
 
+    # import path resolution (get_key_offset)
+    import importcheck
+    imp_pending, imp_unconfirmed = [], []
+    imp_used, imp_exec, imp_solver, imp_models, imp_fns = importcheck.run(dump, defs, tier, queries, imp_pending, imp_unconfirmed)
+    if imp_unconfirmed and not (imp_pending or violations):
+        raise Inconclusive('; '.join(imp_unconfirmed[:3]))
+    exec_s += imp_exec
+    solver_s += imp_solver
+    for k_, v_ in imp_models.items():
+        models[k_] = models.get(k_, 0) + v_
+
     known = known_keys(PROP)
     out_v = []
+    for qname, text, line, got in imp_pending:
+        key = '%s:%s' % (qname, line)
+        what = '%s fails for [%s]: native get_key_offset gives %s (%s)' % (qname, line, got, text)
+        if key in known:
+            log('KNOWN-FINDING: property=%s %s' % (PROP, what))
+            continue
+        rp = write_replay(PROP, key, {'property': PROP, 'query': qname, 'statement': text, 'request': line, 'native': got, 'tool': 'keyoffset-eval',
+                                      'how': 'echo "%s" | pv_replay keyoffset-eval' % line})
+        out_v.append((what, rp))
     for qname, text, line, got in violations:
         key = '%s:%s' % (qname, line)
         what = '%s fails for declaration "%s": native export gives "%s" (%s)' % (qname, line, got, text)
@@ -219,22 +239,27 @@ def run(tier):
         out_v.append((what, rp))
     wall = time.time() - t0
     cov = {
-        'states': len(queries), 'transitions': max(1, stats_blocks), 'traces_validated_against_impl': len(lines),
+        'states': len(queries), 'transitions': max(1, stats_blocks), 'traces_validated_against_impl': len(lines) + imp_used,
         'samples': queries[:8], 'exhaustive': True,
         'explanation': 'expander::export and extract_public symbolically executed from MIR on a symbolic Declaration '
                        '(6 kinds x 8-bit flag set x opaque payload); EnumSet is modelled as a bit set; payload identity is read '
-                       'off the symbolic result per kind; the encoding is validated natively on all 6 x 32 kind/flag combinations.',
-        'functions_encoded': ['export', 'extract_public', 'export::{closure#0..3}'],
-        'bounds': 'none needed (loop-free); Vec/String/expression payloads are opaque values that are only moved or cloned',
+                       'off the symbolic result per kind; the encoding is validated natively on all 6 x 32 kind/flag combinations.  '
+                       'Import resolution: expander::get_key_offset on symbolic paths (<= 3 normalised components, relative or absolute) and '
+                       'up to %d symbolic module keys, with a component-sequence model of std::path validated natively on random paths.' % (3 if tier == 'quick' else 4),
+        'functions_encoded': ['export', 'extract_public', 'export::{closure#0..3}'] + sorted(set(imp_fns)),
+        'bounds': 'export: none needed (loop-free); Vec/String/expression payloads are opaque values that are only moved or cloned.  get_key_offset: paths of at most 3 components, %d keys' % (3 if tier == 'quick' else 4),
+        'vacuity_witnesses_sat': len([q for q in queries if q.get('expected') == 'sat']),
         'queries_discharged': len(queries), 'queries_unsat': len([q for q in queries if q['result'] == 'unsat']),
         'solver_time_s': round(solver_s, 3), 'symbolic_execution_s': round(exec_s, 3), 'mir_dump_s': round(dump_s, 2),
         'std_models_used': {k: int(v) for k, v in models.items()},
-        'outside_claim': ['expand(): import path resolution, splice order, HashSet iteration', 'multi-file behaviour of compiled programs'],
+        'outside_claim': ['expand(): splice order, HashSet iteration, which declarations are spliced where', 'paths with `.`/`..`, prefixes or trailing separators',
+                          'multi-file behaviour of compiled programs'],
     }
     write_evidence(PROP, tier, 'model_checking', cov, wall,
                    ['rustc nightly MIR dump', 'mirsym and its models (EnumSet as bit set, Clone as identity, Option::map)',
                     'native validation through the guarded hook expander::verif_hooks::export'], violations=len(out_v))
-    log('%s: %d queries (%d unsat), %d native comparisons, wall %.1fs' % (PROP, len(queries), cov['queries_unsat'], len(lines), wall))
+    log('%s: %d queries (%d unsat, %d witnesses sat as required), %d native comparisons, wall %.1fs'
+        % (PROP, len(queries), cov['queries_unsat'], cov['vacuity_witnesses_sat'], len(lines) + imp_used, wall))
     for what, rp in out_v:
         log('VIOLATION property=%s replay=%s' % (PROP, rp))
         log('  ' + what)
@@ -244,8 +269,12 @@ def run(tier):
 def replay_file(path):
     import json
     r = json.load(open(path))
-    got = native([r['request']])[0]
-    log('native export of "%s": %s (recorded: %s)' % (r['request'], got, r['native']))
+    if r.get('tool') == 'keyoffset-eval':
+        import importcheck
+        got = importcheck.native([r['request']])[0]
+    else:
+        got = native([r['request']])[0]
+    log('native answer for "%s": %s (recorded: %s)' % (r['request'], got, r['native']))
     if got == r['native']:
         log('VIOLATION property=%s replay=%s' % (PROP, path))
         return 1
